@@ -197,6 +197,19 @@ def check_raster(c, cl):
     if img.min() != img.max() and dropped and kept:
         cl.add("NT")
     cl.add("raster")
+    # another map object with other data / scale / tolerance, used meanwhile
+    other = RasterHeightMap(np.full((5, 7), 200, dtype=np.uint8))
+    other.set_scale(scale * 3.0 + 1.0)
+    other.set_tolerance(tol * 2.0 + 0.5)
+    other.get_depth_at(1, 1)
+    other.sample_path([0, 0, 4, 4])
+    for (fx, fy) in c["centres"][:2]:
+        col, row = int(fx * w) % w, int(fy * h) % h
+        got = hm.get_depth_at(col, row)
+        exp = scale * float(img[row, col]) / mx
+        if abs(got - exp) > eps:
+            raise Violation(f"after another RasterHeightMap was used: get_depth_at(col={col}, "
+                            f"row={row}) = {got!r}, expected {exp!r}")
     # the same map object after a scale change: nothing may be remembered
     s2 = c.get("scale2")
     if s2:
@@ -324,6 +337,15 @@ def check_sparse(c, cl):
     if zmin != zmax and dropped and kept:
         cl.add("NT")
     cl.add("sparse")
+    other = SparseHeightMap(np.array([(0, 0, 5), (9, 0, 6), (0, 9, 7), (9, 9, 8), (x0 := pts[1][0], pts[1][1], -3.0)], dtype=float))
+    other.set_scale(scale * 2.0 + 1.0)
+    other.get_depth_at(x0, pts[1][1])
+    other.get_depth_at(0.0, 0.0)
+    for (x, y), z in zip(pts[:3], zs[:3]):
+        got = float(hm.get_depth_at(x, y))
+        if abs(got - scale * z) > eps:
+            raise Violation(f"after another SparseHeightMap was used: get_depth_at({x}, {y}) = "
+                            f"{got!r} at a stored sample with height {z!r} x scale {scale!r}")
     s2 = c.get("scale2")
     if s2:
         hm.set_scale(s2)
